@@ -140,8 +140,12 @@ def check_C(S, p):
             transport = "pipe"
         else:
             shape = GS.random_shape(rng, 1, 4, 5)
-            vkind = rng.choice(["int", "real", "dyadic", "ws-top-byte"])
+            vkind = rng.choice(["int", "real", "dyadic", "ws-top-byte", "signed", "signed"])
             vals = GS.values(rng, O.prod(shape), vkind)
+            if vkind == "signed":
+                # negative values that print as a signed zero at the chosen precision (a residual, a centred spectrum), and -0.0 itself
+                for _ in range(rng.randint(1, 3)):
+                    vals[rng.randrange(len(vals))] = rng.choice([-0.0, -1e-9, -0.4, -0.0004, -3e-7, -0.25, 0.4, -1e-300])
             src = GS.text_spectrum(shape, vals, 6) if (rng.random() < 0.5 and vkind != "ws-top-byte") else GS.npy_bytes(shape, vals)
             if vkind == "ws-top-byte" and writer == "view":
                 fmt = "npy"
@@ -236,6 +240,8 @@ def check_C(S, p):
             b = cli.sfs(["view", "--precision", str(prec if writer != "create" or True else 0)], stdin=a.out)
             S.count("C_matrix_runs", 2)
             S.count("C_text_npy_text")
+            import re as _re
+            S.count("C_text_npy_text_signed_zero_tokens", len(_re.findall(rb"(?<![0-9.])-0(?:\.0*)?(?![0-9.])", produced)))
             if writer == "create":
                 # create prints with its own precision: recover it from the tokens
                 toks = E.parse_text_spectrum(produced)[1]
@@ -243,9 +249,8 @@ def check_C(S, p):
                 b = cli.sfs(["view", "--precision", str(pp)], stdin=a.out)
             digits_ok = all(len(t.replace("-", "").replace(".", "").lstrip("0")) <= 15 for t in E.parse_text_spectrum(produced)[1] if t not in ("NaN", "inf", "-inf"))
             if digits_ok and (a.rc != 0 or b.rc != 0 or b.out != produced):
-                # -0 vs 0 is the same number; anything else is a loss
-                if b.out.replace(b"-0.", b"0.").replace(b" -0 ", b" 0 ") != produced.replace(b"-0.", b"0.").replace(b" -0 ", b" 0 "):
-                    S.viol("C07:text-npy-text", "[C] text -> npy -> text does not reproduce the text: %r vs %r" % (b.out[:120], produced[:120]), wit)
+                # "reproduces the text": byte for byte, the sign of a value printed as zero included (-0.00 stays -0.00)
+                S.viol("C07:text-npy-text", "[C] text -> npy -> text does not reproduce the text: %r vs %r" % (b.out[:120], produced[:120]), wit)
         S.case(key=digest([produced.hex()[:3000], writer, fmt]), nontrivial=True)
         if i == 0 and p["i"] == 2:
             S.sample({"level": "C", "writer": w.argv, "format": fmt, "transport": transport, "produced_head": produced[:80].decode("latin1")})
